@@ -141,12 +141,18 @@ def _worker(spec):
         for v in res.violations:
             if v.prop != prop:
                 agg.other[v.signature()] += 1
-        if mine and len(agg.violations) < 6:
+        if mine:
+            # report a violation no known finding explains, if there is one
+            kf = [(v, fam.known_finding(v, res)) for v in mine]
+            pick = next(((v, k) for v, k in kf if not k), kf[0])
+            if pick[1]:
+                agg.stats['known_finding_runs'] += 1
+        if mine and (len(agg.violations) < 6 or (not pick[1] and len(agg.violations) < 12)):
             agg.violations.append(dict(seed=seed, family=fam.name, case=case,
                                        choices=rle(res.choices),
-                                       violation=mine[0].to_json(),
-                                       signature=mine[0].signature(),
-                                       known=fam.known_finding(mine[0], res)))
+                                       violation=pick[0].to_json(),
+                                       signature=pick[0].signature(),
+                                       known=pick[1]))
         elif mine:
             agg.stats['violations_not_kept'] += 1
         if len(agg.samples) < 2:
@@ -189,7 +195,7 @@ def minimise(family, case, choices, sig, seed, budget=90.0, max_runs=250):
             return None
         if r.harness_error:
             return None
-        if any(v.signature() == sig for v in r.violations):
+        if any(v.signature() == sig and not family.known_finding(v, r) for v in r.violations):
             return r
         return None
 
@@ -275,6 +281,8 @@ def load_findings():
 
 def write_evidence(prop, tier, seed, level, coverage, assumptions, wall, nviol):
     d = os.path.join(VERIF, 'evidence')
+    if os.environ.get('VERIF_NO_EVIDENCE'):      # mutant trials must not touch committed evidence
+        d = os.environ.get('PYTHONPYCACHEPREFIX') or '/tmp'
     os.makedirs(d, exist_ok=True)
     ev = dict(property_id=prop, tier=tier, seed=seed, level=level, coverage=coverage,
               assumptions=assumptions, wall_s=round(wall, 2), violations=nviol)
@@ -287,6 +295,10 @@ def write_evidence(prop, tier, seed, level, coverage, assumptions, wall, nviol):
 def run_check(spec, tier, base_seed):
     """spec: a props.<id>.CHECK dict.  Returns the process exit code."""
     prop = spec['property']
+    import logging
+    logging.disable(logging.CRITICAL)
+    import warnings
+    warnings.simplefilter('ignore', RuntimeWarning)
     t0 = time.perf_counter()
     budget = spec['budget'][tier]
     max_runs = spec['max_runs'][tier]
